@@ -675,6 +675,35 @@ def f():
         order.append(tuple(members))
     return order
 """,
+    "init-subclass-registry-with-class-keywords": """
+from abc import ABC, abstractmethod
+REG = {}
+class Enc(ABC):
+    alias = None
+    def __init_subclass__(cls, types=(), **kwargs):
+        super().__init_subclass__(**kwargs)
+        inst = None
+        for t in types:
+            inst = inst or cls()
+            REG[t] = inst
+    @abstractmethod
+    def lits(self, x):
+        ...
+class And(Enc, types=("and",)):
+    alias = "buf"
+    def out(self, l):
+        return l
+    def lits(self, x):
+        return [self.out(x), -x]
+class Nand(And, types=("nand", "nnd")):
+    alias = "not"
+    def out(self, l):
+        return -super().out(l)
+class Helper(And):
+    pass
+def f():
+    return [sorted(REG), REG["nand"].lits(3), REG["and"].lits(3), REG["nand"] is REG["nnd"], REG["nand"].alias, type(REG["and"]).__name__]
+""",
 }
 
 
